@@ -49,6 +49,7 @@ def cases(tier):
             yield {"kind": "single", "domain": name, "prefix": [[c1[0], *c1[1]]], "length": L}
     yield {"kind": "joint", "domain": "strips"}
     yield {"kind": "joint", "domain": "numeric"}
+    yield {"kind": "objectless"}
     for p in sorted(glob.glob(os.path.join(REPO, "tests", "**", "*trajectory*"), recursive=True)):
         if os.path.isfile(p) and not p.endswith(".py"):
             yield {"kind": "shipped", "file": os.path.relpath(p, REPO)}
@@ -272,7 +273,57 @@ def check_shipped(r, case):
     r.outcome(f"shipped-parsed-by-{min(n_ok, 1)}-domains")
 
 
+OBJECTLESS_DOMAIN = """(define (domain z1)
+(:requirements :typing :negative-preconditions :numeric-fluents)
+(:types t1 - object)
+(:predicates (r) (s) (p ?a - t1))
+(:functions (f))
+(:action tg :parameters () :precondition (and (r)) :effect (and (not (r)) (s) (increase (f) 1.5)))
+(:action back :parameters () :precondition (and (s)) :effect (and (r) (not (s))))
+(:action put :parameters (?x - t1) :precondition (and) :effect (and (p ?x))))
+"""
+OBJECTLESS_PROBLEMS = ["(define (problem z1p) (:domain z1) (:objects a - t1) (:init (r) (= (f) -2)) (:goal (and (s))))",
+                       "(define (problem z1q) (:domain z1) (:objects) (:init (= (f) 0)) (:goal (and)))",
+                       "(define (problem z1e) (:domain z1) (:objects a - t1) (:init) (:goal (and (r))))"]
+
+
+def check_objectless(r, case):
+    """trajectories whose states mention no object at all (only parameterless atoms and fluents, or nothing): they
+    parse back with the problem's object table and with objects deduced from the first state alike"""
+    from pddl_plus_parser.exporters import TrajectoryExporter
+    from pddl_plus_parser.lisp_parsers import TrajectoryParser
+    from ..refsem import RefDomain, RefProblem
+    r.nontrivial = True
+    D = parse_domain(OBJECTLESS_DOMAIN)
+    S = RefDomain.from_tree(sexp.read(OBJECTLESS_DOMAIN))
+    for ptxt in OBJECTLESS_PROBLEMS:
+        P = parse_problem(ptxt, D)
+        RP = RefProblem.from_tree(sexp.read(ptxt))
+        objs = S.all_objects(RP.objects)
+        for plan in ([["tg"]], [["tg"], ["back"]], [["back"]], [["tg"], ["tg"], ["back"]]):
+            lines = [line(s) for s in plan]
+            tr = guard(lambda: TrajectoryExporter(D).parse_plan(P, action_sequence=list(lines)))
+            if isinstance(tr, Raised):
+                r.outcome("skip-plan-raised (C04's business)")
+                continue
+            states = guard(lambda: [observe_state(tr[0].previous_state)] + [observe_state(t.next_state) for t in tr])
+            text = guard(lambda: "".join(TrajectoryExporter.export(tr)))
+            if isinstance(states, Raised) or isinstance(text, Raised):
+                continue
+            path = write_tmp(text, ".trajectory")
+            r.count("histories")
+            for mode, prob in (("with-problem", P), ("objects-deduced", None)):
+                obs = guard(lambda: TrajectoryParser(D, prob).parse_trajectory(path))
+                if not compare_observation(r, obs, [[x.lower() for x in s] for s in plan], states,
+                                           f"[{mode}] object-less trajectory {plan} of {ptxt[17:21]}", ["objectless", mode]):
+                    return
+            r.outcome("roundtrip-ok")
+
+
 def check_case(case):
     r = CaseResult()
+    if case["kind"] == "objectless":
+        check_objectless(r, case)
+        return r
     {"single": check_single, "joint": check_joint, "shipped": check_shipped}[case["kind"]](r, case)
     return r
